@@ -126,6 +126,22 @@ def _groups(shards):
 
 
 def _work(arg):
+    cov_dir = os.environ.get('VERIF_COVERAGE')
+    if not cov_dir:
+        return _work_inner(arg)
+    # audit aid (tools/coverage_audit.py): line+branch coverage of the tree under test, one data file per shard group
+    import coverage
+    cov = coverage.Coverage(data_file=os.path.join(cov_dir, f'cov.{arg[0]}'), branch=True,
+                            include=[os.path.join(bind.REPO, 'singlecellmultiomics', '*')])
+    cov.start()
+    try:
+        return _work_inner(arg)
+    finally:
+        cov.stop()
+        cov.save()
+
+
+def _work_inner(arg):
     gidx, members = arg
     acc = Acc(_SEED, gidx)
     t0 = time.time()
